@@ -1,6 +1,7 @@
 /- Helper lemmas for the size-aware models of Mpir/Model/AllocSafeMpz5.lean (mpz/import.c, gcd.c, lcm.c). -/
 import MpirProofs.Lemmas.AllocSafeSetD
 import MpirProofs.Lemmas.AllocSafeMpqInv
+import MpirProofs.Lemmas.KernelsMem
 import Mpir.Model.AllocSafeMpz5
 namespace Mpir.AllocSafe5
 open Mpir Mpir.AllocSafe
@@ -351,5 +352,77 @@ theorem gcdOne_refines (s : St) (g u v : Nat) (hs : s.ok = true) (hg : OWF (s.h 
     have R := gcdOneV_refines s g u v hs hg hu hv hv1 (by omega)
     rw [← e] at R
     exact ⟨R, WF_one _ _ ha (Nat.gcd_pos_of_pos_right _ p) (Nat.lt_of_le_of_lt (Nat.gcd_le_right _ p) b)⟩
+
+/-! ## mpz/gcd.c: the re-shift into g (gcd.c:133-154) -/
+
+/-- the bits mpn_lshift shifts out are the top bits of the top limb -/
+theorem lshift_carry (G : List Nat) (c : Nat) (hne : G ≠ []) : (Mpir.lshift G c).2 = Mpz.topLimb G >>> (64 - c) := by
+  obtain ⟨xs, x, rfl⟩ : ∃ xs x, G = xs ++ [x] := ⟨G.dropLast, G.getLast hne, (List.dropLast_append_getLast hne).symm⟩
+  unfold Mpir.lshift
+  rw [Mem.lshiftGo_snoc]
+  simp [Mpz.topLimb]
+
+theorem ptr_add_add (p : Ptr) (a b : Nat) : (p.add a).add b = p.add (a + b) := by
+  cases p; simp [Ptr.add, Nat.add_assoc]
+
+/-- gcd.c:133-154, the destination side: `MPZ_REALLOC (g, gsize)` covers the zero fill, the shifted limbs and the conditional
+    `tp[vsize] = cy_limb` -/
+theorem gcdTail_mem (s : St) (g : Nat) (G : List Nat) (gzl gzb : Nat) (hs : s.ok = true) (hg : OWF (s.h g))
+    (hG : Limbs G) (hne : G ≠ []) (hb : gzb ≤ 63) :
+    (gcdTail 0 false s g G gzl gzb).ok = true ∧ BWF ((gcdTail 0 false s g G gzl gzb).h g).buf ∧
+    ((gcdTail 0 false s g G gzl gzb).h g).size.natAbs ≤ ((gcdTail 0 false s g G gzl gzb).h g).buf.alloc ∧
+    (∀ x, x ≠ g → (gcdTail 0 false s g G gzl gzb).h x = s.h x) := by
+  unfold gcdTail
+  simp only [Nat.sub_zero, Bool.false_or]
+  by_cases h0 : gzb = 0
+  · subst h0
+    simp only [bne_self_eq_false, Bool.false_eq_true, if_false]
+    have Gr := MPZ_REALLOC_grown s g (G.length + gzl) hg
+    have hok1 : (MPZ_REALLOC s g (G.length + gzl)).ok = true := by rw [Gr.ok]; exact hs
+    have hb1 := Gr.bwf g hg.1
+    have hroom := Gr.room
+    generalize MPZ_REALLOC s g (G.length + gzl) = s1 at *
+    have W0 := Wrote.refl s1 g 0 hok1 hb1 (Nat.zero_le _)
+    have W1 := W0.wr 0 (List.replicate gzl 0) (Limbs_rep0 _) (by simp) (by simp; omega)
+    simp only [List.take_zero, add_zero_ptr, List.nil_append, List.drop_nil, List.append_nil] at W1
+    have W2 := W1.wr gzl G hG (by simp) (by omega)
+    have W3 := W2.setSize ((G.length + gzl : Nat) : Int)
+    simp only [MPN_ZERO, wr_PTR]
+    refine ⟨W3.ok, W3.bwf, ?_, fun x hx => (W3.frame x hx).trans (Gr.other x hx)⟩
+    rw [W3.alloc]; simp; omega
+  · have hb0 : (gzb != 0) = true := by simpa using h0
+    simp only [hb0, if_true]
+    obtain ⟨_, _, hl, hn⟩ := Mpz.K.lshift_val G gzb hG (by omega) hb
+    have hc := lshift_carry G gzb hne
+    generalize hgs : G.length + gzl + (if (Mpz.topLimb G >>> (64 - gzb) != 0) = true then 1 else 0) = gsize
+    have Gr := MPZ_REALLOC_grown s g gsize hg
+    have hok1 : (MPZ_REALLOC s g gsize).ok = true := by rw [Gr.ok]; exact hs
+    have hb1 := Gr.bwf g hg.1
+    have hroom := Gr.room
+    generalize MPZ_REALLOC s g gsize = s1 at *
+    have W0 := Wrote.refl s1 g 0 hok1 hb1 (Nat.zero_le _)
+    have W1 := W0.wr 0 (List.replicate gzl 0) (Limbs_rep0 _) (by simp) (by simp; split at hgs <;> omega)
+    simp only [List.take_zero, add_zero_ptr, List.nil_append, List.drop_nil, List.append_nil] at W1
+    have W2 := W1.wr gzl (Mpir.lshift G gzb).1 hl (by simp) (by rw [hn]; split at hgs <;> omega)
+    simp only [MPN_ZERO, wr_PTR]
+    by_cases hcy : (Mpir.lshift G gzb).2 = 0
+    · have : ((Mpir.lshift G gzb).2 != 0) = false := by simpa using hcy
+      simp only [this, Bool.false_eq_true, if_false]
+      have W3 := W2.setSize ((gsize : Nat) : Int)
+      refine ⟨W3.ok, W3.bwf, ?_, fun x hx => (W3.frame x hx).trans (Gr.other x hx)⟩
+      rw [W3.alloc]; simp; omega
+    · have hcb : ((Mpir.lshift G gzb).2 != 0) = true := by simpa using hcy
+      simp only [hcb, if_true]
+      have hcy' : (Mpz.topLimb G >>> (64 - gzb) != 0) = true := by rw [← hc]; exact hcb
+      rw [hcy'] at hgs
+      simp only [if_true] at hgs
+      have hcB : (Mpir.lshift G gzb).2 < B := by
+        have : (Mpir.lshift G gzb).2 < 2 ^ gzb := by assumption
+        exact Nat.lt_of_lt_of_le this (by unfold B; exact Nat.pow_le_pow_right (by decide) (by omega))
+      have W3 := W2.wr (gzl + G.length) [(Mpir.lshift G gzb).2] (limb_singleton hcB) (by simp [hn]) (by simp; omega)
+      have W4 := W3.setSize ((gsize : Nat) : Int)
+      simp only [St.store, ptr_add_add]
+      refine ⟨W4.ok, W4.bwf, ?_, fun x hx => (W4.frame x hx).trans (Gr.other x hx)⟩
+      rw [W4.alloc]; simp; omega
 
 end Mpir.AllocSafe5
